@@ -56,11 +56,24 @@ func (ex *Exec) parseSpecType(name string, u *Unit) types.Type {
 	case "any", "ref":
 		return tAny
 	}
+	if o := types.Universe.Lookup(name); o != nil {
+		if tn, ok := o.(*types.TypeName); ok {
+			return tn.Type()
+		}
+	}
 	if strings.HasPrefix(name, "*") {
 		return types.NewPointer(ex.parseSpecType(name[1:], u))
 	}
 	if strings.HasPrefix(name, "[]") {
 		return types.NewSlice(ex.parseSpecType(name[2:], u))
+	}
+	if strings.HasPrefix(name, "[") {
+		if i := strings.Index(name, "]"); i > 0 {
+			var n int64
+			if _, err := fmt.Sscanf(name[1:i], "%d", &n); err == nil {
+				return types.NewArray(ex.parseSpecType(name[i+1:], u), n)
+			}
+		}
 	}
 	if u != nil {
 		if i := strings.Index(name, "."); i >= 0 {
@@ -226,6 +239,25 @@ func (ex *Exec) specSelector(st *State, e *ast.SelectorExpr) *Val {
 				}
 				ex.guardedAccess(st, x, base, g.Name, e.Pos())
 				return &Val{T: gt, Term: ex.readField(st, x.Term, base, g.Name, gt)}
+			}
+		}
+	}
+	// method?
+	{
+		var pkg *types.Package
+		if n, ok := base.(*types.Named); ok {
+			pkg = n.Obj().Pkg()
+		}
+		if obj, index, _ := types.LookupFieldOrMethod(x.T, true, pkg, e.Sel.Name); obj != nil {
+			if fn, ok := obj.(*types.Func); ok {
+				cur := x
+				for _, i := range index[:len(index)-1] {
+					bt, _ := derefType(cur.T)
+					if st2, ok := bt.Underlying().(*types.Struct); ok {
+						cur = ex.fieldStep(st, cur, st2.Field(i), e.Pos())
+					}
+				}
+				return &Val{T: fn.Type(), Fn: fn, Recv: cur}
 			}
 		}
 	}
@@ -417,6 +449,14 @@ func (ex *Exec) specCall(st *State, e *ast.CallExpr) []*Val {
 			f := ex.materialize(ex.expr(st, e.Args[0]), tString)
 			a := ex.expr(st, e.Args[1])
 			return one(&Val{T: tString, Term: ex.sprintfModel(st, f.Term, a.Term)})
+		case "boxes":
+			// boxes(x, v): interface value x holds exactly the value v
+			x := ex.expr(st, e.Args[0])
+			v := ex.materialize(ex.expr(st, e.Args[1]), nil)
+			if v.Term.S == SInt && isRefLike(v.T) {
+				return one(&Val{T: tBool, Term: eq(x.Term, v.Term)})
+			}
+			return one(&Val{T: tBool, Term: eq(ex.D.app("unbox$"+smtName(v.Term.S), v.Term.S, x.Term), v.Term)})
 		case "unboxStr":
 			x := ex.expr(st, e.Args[0])
 			return one(&Val{T: tString, Term: ex.D.app("unbox$"+smtName(SStr), SStr, x.Term)})
@@ -455,6 +495,9 @@ func (ex *Exec) specCall(st *State, e *ast.CallExpr) []*Val {
 		// library / repo function used in a spec: pure uninterpreted application
 		if fn.Recv != nil {
 			args = append([]*Val{fn.Recv}, args...)
+		}
+		if calleeKey(fn.Fn) == "errors.Is" {
+			return one(&Val{T: tBool, Term: ex.errorsIs(args[0].Term, args[1].Term)})
 		}
 		return one(ex.pureApp(st, fn.Fn, args))
 	}
@@ -663,6 +706,32 @@ func mentionsAny(t *Term, leaves []*Term) bool {
 		}
 	}
 	return false
+}
+
+// pureAppN is pureApp for functions with several results (one UF per result).
+func (ex *Exec) pureAppN(st *State, fn *types.Func, args []*Val) []*Val {
+	sig := fn.Type().(*types.Signature)
+	var ts []*Term
+	for _, a := range args {
+		a = ex.materialize(a, nil)
+		if a.Term == nil {
+			a = &Val{T: a.T, Term: ex.funcRef(st, a)}
+		}
+		ts = append(ts, a.Term)
+	}
+	name := "pure$" + smtName(calleeKey(fn))
+	for _, t := range ts {
+		name += "$" + sortTag(t.S)
+	}
+	var out []*Val
+	for i := 0; i < sig.Results().Len(); i++ {
+		rt := sig.Results().At(i).Type()
+		v := &Val{T: rt, Term: ex.D.app(fmt.Sprintf("%s.r%d", name, i), ex.sortOf(rt), ts...)}
+		ex.wf(st, v)
+		out = append(out, v)
+	}
+	ex.W.Trusted["pure function (deterministic, side-effect free, modelled as uninterpreted): "+calleeKey(fn)] = true
+	return out
 }
 
 // pureApp models a function as an uninterpreted function of its arguments.
